@@ -184,12 +184,7 @@ func (i UInt8) ExponentiateUInt8(other UInt8) UInt8 {
 	if other <= 0 {
 		return 1
 	}
-	result := i
-	var j UInt8
-	for j = 2; j <= other; j++ {
-		result *= i
-	}
-	return result
+	return StrictIntExponentiate(i, other)
 }
 
 func (i UInt8) Subtract(other Value) (UInt8, Value) {
